@@ -5,6 +5,7 @@
 //! `VIOLATION property=C06 replay=<path>` is printed); 2 = harness error (never a verdict).
 
 mod audit;
+mod conc;
 mod exec;
 mod image;
 mod oracle;
@@ -94,6 +95,7 @@ fn parse_args() -> Result<Args, String> {
             "--det-pairs" => a.det_pairs = val("--det-pairs")?.parse().map_err(|e| format!("--det-pairs: {e}"))?,
             "--verbose" => a.verbose = true,
             other if a.cmd == "replay" && a.replay.is_none() => a.replay = Some(PathBuf::from(other)),
+            _ if a.cmd == "cmp-hashes" => {}
             other => return Err(format!("unknown argument {other}")),
         }
     }
@@ -197,7 +199,7 @@ struct WorkerOut {
     counters: Option<Counters>,
     signatures: BTreeSet<u64>,
     violations: Vec<(u64, Violation)>,
-    hashes: Vec<(u64, u64)>,
+    hashes: Vec<(u64, u64, u64)>,
     combined: u64,
     interleavings: BTreeSet<(u32, u32, u32)>,
     v0_bits: Vec<u64>,
@@ -301,6 +303,14 @@ fn extract(sc: &Scenario, pool: &[Image]) -> (Scenario, Vec<Image>) {
                     used.push(i)
                 }
             }
+            Op::Concurrent { threads, .. } => {
+                for t in threads {
+                    used.push(t.image);
+                    if let Some((_, i)) = t.plan.replace_at {
+                        used.push(i)
+                    }
+                }
+            }
             _ => {}
         }
     }
@@ -315,6 +325,14 @@ fn extract(sc: &Scenario, pool: &[Image]) -> (Scenario, Vec<Image>) {
             Op::Load { plan, .. } => {
                 if let Some((_, i)) = &mut plan.replace_at {
                     *i = map(*i)
+                }
+            }
+            Op::Concurrent { threads, .. } => {
+                for t in threads.iter_mut() {
+                    t.image = map(t.image);
+                    if let Some((_, i)) = &mut t.plan.replace_at {
+                        *i = map(*i)
+                    }
                 }
             }
             _ => {}
@@ -433,6 +451,47 @@ fn cmd_replay(args: &Args) -> i32 {
             0
         }
     }
+}
+
+/// Compares two per-run hash files (`<run> <hash> <steals>` per line). Runs in which the
+/// cooperative scheduler had to steal the turn (timing-dependent by design) are excluded.
+fn cmd_cmp_hashes(a: &Path, b: &Path) -> i32 {
+    let read = |p: &Path| -> Vec<(u64, String, u64)> {
+        std::fs::read_to_string(p)
+            .unwrap_or_else(|e| harness_error(&format!("cannot read {}: {e}", p.display())))
+            .lines()
+            .filter_map(|l| {
+                let mut it = l.split_whitespace();
+                Some((it.next()?.parse().ok()?, it.next()?.to_string(), it.next()?.parse().ok()?))
+            })
+            .collect()
+    };
+    let (xa, xb) = (read(a), read(b));
+    if xa.len() != xb.len() || xa.is_empty() {
+        println!("hash files differ in length: {} vs {}", xa.len(), xb.len());
+        return 1;
+    }
+    let mut excluded = 0;
+    let mut differing = Vec::new();
+    for (l, r) in xa.iter().zip(&xb) {
+        if l.0 != r.0 {
+            println!("run index mismatch {} vs {}", l.0, r.0);
+            return 1;
+        }
+        if l.2 > 0 || r.2 > 0 {
+            excluded += 1;
+        } else if l.1 != r.1 {
+            differing.push(l.0);
+        }
+    }
+    println!(
+        "compared {} runs, {} excluded (scheduler steals), {} differing{}",
+        xa.len() - excluded,
+        excluded,
+        differing.len(),
+        if differing.is_empty() { String::new() } else { format!(": {:?}", &differing[..differing.len().min(10)]) }
+    );
+    if differing.is_empty() { 0 } else { 1 }
 }
 
 fn cmd_audit() -> i32 {
@@ -581,11 +640,13 @@ fn cmd_run(args: &Args) -> i32 {
                                 let seed = prng::mix(base_seed, i);
                                 let sc = scenario::generate(seed, i, &ctx.infos);
                                 let r = sim.execute(&sc);
-                                out.combined = out
-                                    .combined
-                                    .wrapping_add(prng::mix(r.log_hash, i));
+                                if r.steals == 0 {
+                                    out.combined = out
+                                        .combined
+                                        .wrapping_add(prng::mix(r.log_hash, i));
+                                }
                                 if want_hashes {
-                                    out.hashes.push((i, r.log_hash));
+                                    out.hashes.push((i, r.log_hash, r.steals));
                                 }
                                 if r.nontrivial {
                                     out.signatures.insert(r.signature);
@@ -625,7 +686,7 @@ fn cmd_run(args: &Args) -> i32 {
             }
         });
         let limit = stop_limit.load(Ordering::SeqCst);
-        let mut all_hashes: Vec<(u64, u64)> = Vec::new();
+        let mut all_hashes: Vec<(u64, u64, u64)> = Vec::new();
         let mut sample_idx: BTreeMap<String, u64> = BTreeMap::new();
         let mut found: Vec<(u64, Violation)> = Vec::new();
         for o in outs.lock().unwrap().drain(..) {
@@ -660,8 +721,8 @@ fn cmd_run(args: &Args) -> i32 {
         if let Some(p) = &args.hashes {
             all_hashes.sort_unstable();
             let mut s = String::new();
-            for (i, h) in &all_hashes {
-                s.push_str(&format!("{i} {h:016x}\n"));
+            for (i, h, st) in &all_hashes {
+                s.push_str(&format!("{i} {h:016x} {st}\n"));
             }
             std::fs::write(p, s).unwrap_or_else(|e| harness_error(&format!("write {}: {e}", p.display())));
         }
@@ -706,12 +767,23 @@ fn cmd_run(args: &Args) -> i32 {
         sim.bypass = bypass;
         let iso_path = dirs.root.join("isolated.json");
         let mut tried = 0;
+        let mut tried_sequential = 0;
         for (k, (i, v)) in found.into_iter().enumerate() {
             if seen_oracles.contains(&v.oracle) {
                 continue;
             }
+            // State shared between calls shows up in ordinary runs only through what other workers
+            // happen to do at the same time, which no scenario can replay; the concurrent stratum
+            // reproduces it from its scenario. Give both kinds of candidate their own budget.
+            let concurrent = v.message.starts_with("[concurrent loads");
+            if !concurrent {
+                tried_sequential += 1;
+                if tried_sequential > 12 {
+                    continue;
+                }
+            }
             tried += 1;
-            if tried > 40 {
+            if tried > 48 {
                 break;
             }
             let sc = if k < n_sweep {
@@ -1016,6 +1088,13 @@ fn main() {
         "run" => cmd_run(&args),
         "replay" => cmd_replay(&args),
         "audit" => cmd_audit(),
+        "cmp-hashes" => {
+            let a: Vec<String> = std::env::args().skip(2).collect();
+            if a.len() != 2 {
+                harness_error("usage: sim cmp-hashes <a> <b>");
+            }
+            cmd_cmp_hashes(Path::new(&a[0]), Path::new(&a[1]))
+        }
         other => harness_error(&format!("unknown command {other}")),
     };
     std::process::exit(code);
